@@ -8,7 +8,8 @@
     crypto/rand.Reader yields, [us] the uint32 stream of math/rand's global source: the
     theorems hold for ALL their values. *)
 From Coq Require Import List ZArith Permutation.
-From V Require Import Gen.Params Lib.Hex Wire.Varint UFrames.Model UFrames.ProofsBase UFrames.Proofs UFrames.ProofsFlight.
+From V Require Import Gen.Params Lib.Hex Wire.Varint UFrames.Model UFrames.ProofsBase UFrames.Proofs UFrames.ProofsFlight
+  UFrames.ScramModel UFrames.ProofsSni UFrames.ProofsScram.
 Import ListNotations.
 Open Scope Z_scope.
 
@@ -113,3 +114,71 @@ Proof.
                           (fun dgs first bs us wss bs' us' => rff_build_true dgs first full bs us wss bs' us')).
 Qed.
 Print Assumptions C09_flight_true_bytes_partial.
+
+(** findSNIAndECH is total (one of three classes on every byte string) and, when it reports
+    success, the input is exactly one handshake message of type ClientHello and the reported
+    host-name range and ECH extension lie inside the input ([sni_ok]). *)
+Theorem C09_sni_total : forall d,
+  bytes_ok d ->
+  (sCls (find_sni_ech d) = 0 \/ sCls (find_sni_ech d) = 1 \/ sCls (find_sni_ech d) = 2) /\
+  (sCls (find_sni_ech d) = 0 ->
+   4 <= zlen d /\ zlen d = 4 + hl3 d /\ byte_at d 0 = 1
+   /\ sni_ok (zlen d) (sPos (find_sni_ech d)) (sLen (find_sni_ech d)) (ePos (find_sni_ech d))).
+Proof. exact (fun d H => conj (find_sni_ech_cls d) (find_sni_ech_spec d H)). Qed.
+Print Assumptions C09_sni_total.
+
+(** The client's Initial crypto stream, scrambler on or off, for EVERY interleaving of non-empty
+    writes and PopCryptoFrame calls with any budgets: no panic; every popped frame lies inside
+    the written stream and carries its bytes at its offset (overlapping cuts included); and
+    when HasData reports false, either nothing was popped yet and the stream still waits for
+    cuts[0] (scramble on), or every byte written so far has been sent. *)
+Theorem C09_scrambler_exact : forall sc ops,
+  Forall op_ok ops ->
+  match run (init sc) [] [] ops with
+  | Ok (s, W, fs) =>
+    Forall (true_frame W) fs /\
+    (has_data s = false ->
+     (scr s = true /\ wo s = 0 /\ c0s s = Inv) \/ (forall i, 0 <= i < zlen W -> covers fs i))
+  | _ => False
+  end.
+Proof. exact stream_exact. Qed.
+Print Assumptions C09_scrambler_exact.
+
+Example C09_scrambler_exact_nonvacuous : Forall op_ok [SWrite ch_ech_no_sni; SPop 1200; SWrite [1; 2]; SPop 3].
+Proof. exact ops_example. Qed.
+Print Assumptions C09_scrambler_exact_nonvacuous.
+
+(** The default splitter (scrambling off, as whenever a QUICSpec is in force): HasData false
+    always means that everything written has been sent, at true offsets. *)
+Theorem C09_default_splitter : forall ops,
+  Forall op_ok ops ->
+  match run (init false) [] [] ops with
+  | Ok (s, W, fs) =>
+    Forall (true_frame W) fs /\ (has_data s = false -> forall i, 0 <= i < zlen W -> covers fs i)
+  | _ => False
+  end.
+Proof. exact default_splitter_exact. Qed.
+Print Assumptions C09_default_splitter.
+
+(** REFUTED for the scrambler: "once the whole ClientHello is queued it is sent".
+    A well-formed ClientHello with an ECH extension and no SNI is accepted by Write, but
+    HasData is false and stays false whatever is written later: it is never sent
+    (known finding scrambler/never-sent/ech-without-sni, reproduced on the implementation). *)
+Theorem C09_scrambler_ech_without_sni_refuted :
+  let r := find_sni_ech ch_ech_no_sni in
+  let s := fst (write (init true) ch_ech_no_sni) in
+  sCls r = 0 /\ sPos r = -1 /\ ePos r = 47 /\
+  snd (write (init true) ch_ech_no_sni) = 0 /\ 0 < zlen (buf s) /\ has_data s = false /\
+  forall p, p <> [] -> bytes_ok p -> has_data (fst (write s p)) = false.
+Proof. exact ech_without_sni_never_sent. Qed.
+Print Assumptions C09_scrambler_ech_without_sni_refuted.
+
+(** REFUTED for the scrambler: "the stream always drains". With a host_name of length 0 the
+    stream wedges after the ClientHello went out: HasData true, PopCryptoFrame nil for every
+    budget, also after further writes (known finding scrambler/stuck/empty-host-name). *)
+Theorem C09_scrambler_empty_host_name_refuted :
+  let s0 := fst (write (init true) ch_empty_host) in
+  exists s, pop s0 (2 ^ 62 - 1) = Ok (s, Some (0, ch_empty_host)) /\
+    forall p m, let s' := fst (write s p) in has_data s' = true /\ pop s' m = Ok (s', None).
+Proof. exact empty_host_name_stuck. Qed.
+Print Assumptions C09_scrambler_empty_host_name_refuted.
